@@ -104,3 +104,163 @@ Definition run_range {A} (f : rfmt) (p : rparams) (xs : list A) : Outcome (list 
   | Ok [] => match f with RJson => Err E_NODATA | _ => Ok [] end
   | r => r
   end.
+
+(* ====================================================================== *)
+(* The other matchers, the inverse form and the trimming flags.
+
+     builtins/core/ranges/number.go   newNumber: the same rfIndex, 0-based (`[s..e]n`, `@[s..e]`)
+     builtins/core/ranges/string.go   rfString: Start / End compare the item with the bound's text
+     builtins/core/ranges/regexp.go   rfRegexp: Start / End match a regular expression
+     builtins/core/ranges/read_array.go  RmBS / TrimSpace / StripBlank preprocessing of each item,
+                                      `if p.IsNot { return }` for `![ .. ]`
+     utils/rmbs/rmbs.go               Remove (backspace editing)                                  *)
+
+(* a matcher: Start and End see the counter and the item, return the verdict and the new counter *)
+Record matcher (A : Type) := {
+  m_start : Z -> A -> bool * Z;
+  m_end : Z -> A -> bool * Z }.
+Arguments m_start {A}. Arguments m_end {A}.
+
+Definition index_matcher {A} (rf : rfidx) : matcher A :=
+  {| m_start := fun i _ => (rf_start rf <? i + 1, i + 1);
+     m_end := fun i _ => if -1 <? rf_end rf then (rf_end rf <? i + 1, i + 1) else (false, i) |}.
+
+(* rfString and rfRegexp: two predicates on the item, no counter *)
+Definition pred_matcher {A} (ps pe : A -> bool) : matcher A :=
+  {| m_start := fun i b => (ps b, i); m_end := fun i b => (pe b, i) |}.
+
+Section GMachine.
+  Context {A : Type}.
+  Variable m : matcher A.
+  Variables excl end_given isnot : bool.
+
+  (* the callback of readArray after the preprocessing of the item *)
+  Definition gstep (st : rstate) (b : A) : rstate * bool :=
+    let '(proceed, i1, started1) :=
+      if st_started st then (true, st_i st, true)
+      else let '(s, i1) := m_start m (st_i st) b in
+           if s then (negb excl, i1, true) else (false, i1, false) in
+    if negb proceed then ({| st_started := started1; st_i := i1; st_done := false |}, false)
+    else if end_given then
+      let '(e, i2) := m_end m i1 b in
+      if e then ({| st_started := true; st_i := i2; st_done := true |}, negb excl)
+      else ({| st_started := true; st_i := i2; st_done := false |}, negb isnot)
+    else ({| st_started := true; st_i := i1; st_done := false |}, negb isnot).
+
+  Fixpoint gfeed (st : rstate) (xs : list A) : list A :=
+    match xs with
+    | [] => []
+    | b :: rest =>
+        if st_done st then []
+        else let '(st', w) := gstep st b in
+             if w then b :: gfeed st' rest else gfeed st' rest
+    end.
+End GMachine.
+
+(* newNumber *)
+Definition new_number (p : rparams) : Outcome (rfidx * bool) :=
+  match new_index p with
+  | Ok (rf, buffer) =>
+      (* newIndex = createRfIndex with both fields decremented: undo that, then newNumber's own shift *)
+      let s := rf_start rf + 1 in
+      let e := rf_end rf + 1 in
+      Ok (if buffer then {| rf_start := s - 2; rf_end := e - 2 |} else {| rf_start := s; rf_end := e |}, buffer)
+  | Err k => Err k
+  | Panic => Panic
+  | OutOfFuel => OutOfFuel
+  end.
+
+(* utils/rmbs.Remove on ASCII text: a backspace deletes the byte before it *)
+Fixpoint rmbs_go (stack : bytes) (s : bytes) : bytes :=
+  match s with
+  | [] => rev stack
+  | b :: r => if (b =? 8)%N then match stack with
+                                 | [] => rmbs_go [b] r
+                                 | _ :: st' => rmbs_go st' r
+                                 end
+              else rmbs_go (b :: stack) r
+  end.
+Definition rmbs (s : bytes) : bytes := rmbs_go [] s.
+
+(* bytes.TrimSpace on ASCII *)
+Definition is_space (b : N) : bool :=
+  ((b =? 32) || (b =? 9) || (b =? 10) || (b =? 11) || (b =? 12) || (b =? 13))%N.
+Fixpoint trim_left (s : bytes) : bytes :=
+  match s with
+  | b :: r => if is_space b then trim_left r else s
+  | [] => []
+  end.
+Definition trim_space (s : bytes) : bytes := rev (trim_left (rev (trim_left s))).
+
+Inductive mkind := KIndex | KNumber | KString | KRegexp.
+
+Record rflags := { f_not : bool; f_rmbs : bool; f_blank : bool; f_trim : bool }.
+
+(* the per item preprocessing: RmBS, TrimSpace, then StripBlank drops empty items
+   before the matcher sees them *)
+Definition prep (f : rflags) (xs : list bytes) : list bytes :=
+  let g := fun b => let b1 := if f_rmbs f then rmbs b else b in
+                    if f_trim f then trim_space b1 else b1 in
+  let ys := map g xs in
+  if f_blank f then filter (fun b => negb (is_empty b)) ys else ys.
+
+Section Full.
+  (* regexp.Match(pattern, item): a parameter of the model *)
+  Variable rx_match : bytes -> bytes -> bool.
+
+  Definition matcher_of (k : mkind) (p : rparams) (n : Z) : Outcome (matcher bytes) :=
+    match k with
+    | KIndex => match new_index p with
+                | Ok (rf0, buffer) => Ok (index_matcher (if buffer then set_length rf0 n else rf0))
+                | Err e => Err e | Panic => Panic | OutOfFuel => OutOfFuel
+                end
+    | KNumber => match new_number p with
+                 | Ok (rf0, buffer) => Ok (index_matcher (if buffer then set_length rf0 n else rf0))
+                 | Err e => Err e | Panic => Panic | OutOfFuel => OutOfFuel
+                 end
+    | KString => Ok (pred_matcher (bytes_eqb (rp_start p)) (bytes_eqb (rp_end p)))
+    | KRegexp => Ok (pred_matcher (rx_match (rp_start p)) (rx_match (rp_end p)))
+    end.
+
+  (* CmdRange + readArray. SetLength gets the number of items read by buffer(),
+     i.e. before StripBlank. *)
+  Definition range_filter2 (k : mkind) (f : rflags) (p : rparams) (xs : list bytes)
+    : Outcome (list bytes) :=
+    obind (matcher_of k p (Z.of_nat (length xs))) (fun m =>
+      Ok (gfeed m (rp_excl p) (negb (is_empty (rp_end p))) (f_not f)
+                {| st_started := is_empty (rp_start p); st_i := 0; st_done := false |}
+                (prep f xs))).
+
+  Definition run_range2 (fm : rfmt) (k : mkind) (f : rflags) (p : rparams) (xs : list bytes)
+    : Outcome (list bytes) :=
+    match range_filter2 k f p xs with
+    | Ok [] => match fm with RJson => Err E_NODATA | _ => Ok [] end
+    | r => r
+    end.
+End Full.
+
+(* the regular expressions used by the correspondence run: an optional `^`, a
+   literal without metacharacters, an optional `$` *)
+Fixpoint is_prefix (p s : bytes) : bool :=
+  match p, s with
+  | [], _ => true
+  | a :: p', b :: s' => (a =? b)%N && is_prefix p' s'
+  | _ :: _, [] => false
+  end.
+Fixpoint contains (p s : bytes) : bool :=
+  is_prefix p s || match s with [] => false | _ :: s' => contains p s' end.
+Definition is_suffix (p s : bytes) : bool := is_prefix (rev p) (rev s).
+
+Definition simple_rx (pat item : bytes) : bool :=
+  match pat with
+  | 94%N :: r =>                                           (* ^ *)
+      match rev r with
+      | 36%N :: m => bytes_eqb (rev m) item               (* ^lit$ *)
+      | _ => is_prefix r item
+      end
+  | _ =>
+      match rev pat with
+      | 36%N :: m => is_suffix (rev m) item               (* lit$ *)
+      | _ => contains pat item
+      end
+  end.
